@@ -259,3 +259,26 @@ func Absent(t *rapid.T, label string, b []byte) ([]byte, string) {
 	}
 	return b, "given"
 }
+
+// Len draws a buffer length up to about max: half of the time small (0..200, every residue mod 64), a quarter within 40 of a power
+// of two 2^7..max (where fixed-size scratch buffers, "short input" fast paths and chunking thresholds begin or end, also 32 or 64
+// bytes before the power when a header shares the buffer), a quarter uniform in 0..max.
+func Len(t *rapid.T, label string, max int) int {
+	switch Pick(t, label+".lenclass", "small", "small", "pow2", "uniform") {
+	case "pow2":
+		ks := []int{}
+		for k := 7; 1<<k <= max; k++ {
+			ks = append(ks, k)
+		}
+		if len(ks) > 0 {
+			n := 1<<ks[Uniform(t, label+".k", 0, len(ks)-1)] + Uniform(t, label+".d", -72, 40)
+			if n >= 0 && n <= max+40 {
+				return n
+			}
+		}
+		return Uniform(t, label+".u", 0, max)
+	case "uniform":
+		return Uniform(t, label+".u", 0, max)
+	}
+	return Int(t, label+".s", 0, 200)
+}
